@@ -11,6 +11,24 @@ class Path:
         self.conds, self.value, self.line = conds, value, line      # conds: list of (Expr, truth)
 
 
+def _is_none_test(test, env):
+    """`x is None` / `x is not None` for a local whose value on this path is the literal None or a tuple / number: decided"""
+    if isinstance(test, ast.Compare) and len(test.ops) == 1 and isinstance(test.ops[0], (ast.Is, ast.IsNot)) and \
+            isinstance(test.left, ast.Name) and isinstance(test.comparators[0], ast.Constant) and test.comparators[0].value is None:
+        v = env.get(test.left.id)
+        if v is None:
+            return None
+        isnone = None
+        if v == ('sym', 'None'):
+            isnone = True
+        elif isinstance(v, tuple) and v and v[0] in ('tuple', 'num'):
+            isnone = False
+        if isnone is None:
+            return None
+        return isnone if isinstance(test.ops[0], ast.Is) else not isnone
+    return None
+
+
 class FnEval:
     def __init__(self, resolve_attr=None, resolve_call=None, ignore_calls=("warnings.warn", "has_c_module", "print")):
         self.builder = ExprBuilder(resolve_attr, resolve_call)
@@ -83,8 +101,13 @@ class FnEval:
                 except Undecided:
                     test = ('sym', f"?{ast.unparse(s.test)[:40]}")
                 rest = stmts[i + 1:]
-                self.walk(list(s.body) + rest, dict(env), conds + [(test, True)])
-                self.walk(list(s.orelse) + rest, dict(env), conds + [(test, False)])
+                known = _is_none_test(s.test, env)
+                if known is not True:
+                    self.walk(list(s.orelse) + rest, dict(env), conds + ([] if known is False else [(test, False)])) if known is False else None
+                if known is not False:
+                    self.walk(list(s.body) + rest, dict(env), conds + ([] if known is True else [(test, True)]))
+                if known is None:
+                    self.walk(list(s.orelse) + rest, dict(env), conds + [(test, False)])
                 return
             if isinstance(s, ast.Return):
                 if s.value is None:
